@@ -358,6 +358,7 @@ HINTS = st.fixed_dictionaries({
     "scalar": st.sampled_from(["py", "np32"]),
     "stray_links": st.sampled_from([False, False, True]),
     "nan": st.sampled_from(["pos", "pos", "neg", "payload", "mixed"]),
+    "readonly": st.sampled_from([False, False, False, True]),
 })
 PLAIN_HINTS = {"dtype": "<f4", "order": "C", "ints": "py", "scalar": "py"}
 
@@ -559,6 +560,14 @@ def arr32(bits, shape, hints):
         a = a[::-1].copy()[::-1]  # same values, negative strides
     else:
         a = a.copy()
+    if hints.get("readonly"):
+        a.flags.writeable = False   # what np.frombuffer / a read-only memmap / broadcast_to hand out: an encoder only reads its input
+    return a
+
+
+def _ro(a, h):
+    if h.get("readonly"):
+        a.flags.writeable = False
     return a
 
 
@@ -712,8 +721,8 @@ def _b_force3D(s, h):
                       arr32(s["trans"], (3,), h), scal32(s["startTime"], h), ForceTorque3DBlockFormat(s["format"]))
     for t in s["tracks"]:
         a = frames_to_array(t["frames"], 9, h)
-        f.add_track(ForceTorqueTrack(t["label"], _present(a[:, 0:3].copy(), _coupled(h, 0)), _present(a[:, 3:6].copy(), _coupled(h, 1)),
-                                     _present(a[:, 6:9].copy(), _coupled(h, 2))))
+        f.add_track(ForceTorqueTrack(t["label"], _ro(_present(a[:, 0:3].copy(), _coupled(h, 0)), h), _ro(_present(a[:, 3:6].copy(), _coupled(h, 1)), h),
+                                     _ro(_present(a[:, 6:9].copy(), _coupled(h, 2)), h)))
     return f
 
 
@@ -723,7 +732,8 @@ def _b_platData(s, h):
     b = ForcePlatformsDataBlock(scal32(s["startTime"], h), ival(s["frequency"], h), ival(s["nFrames"], h))
     for p in s["plats"]:
         a = frames_to_array(p["frames"], 6, h)
-        plat = ForcePlatformData(_present(a[:, 0:2].copy(), _coupled(h, 0)), _present(a[:, 2:5].copy(), _coupled(h, 1)), _present(a[:, 5].copy(), _coupled(h, 2)))
+        plat = ForcePlatformData(_ro(_present(a[:, 0:2].copy(), _coupled(h, 0)), h), _ro(_present(a[:, 2:5].copy(), _coupled(h, 1)), h),
+                                 _ro(_present(a[:, 5].copy(), _coupled(h, 2)), h))
         if s.get("_chmode") == "auto":
             b.add_platform(plat)
         else:
@@ -1036,9 +1046,30 @@ def consume(build, data, tail=b"", head=None):
         th.join()
         if "e" in box:
             raise box["e"]
-        return box["obj"], st_.tell() - len(head)
+        used = st_.tell() - len(head)
+        _release(st_)
+        return box["obj"], used
     obj = build(st_)
-    return obj, st_.tell() - len(head)
+    used = st_.tell() - len(head)
+    _release(st_)
+    return obj, used
+
+
+def _release(st_):
+    """the stream a block was decoded from is the caller's: it overwrites the buffer in place and closes it. A decoder that handed out
+    views into the stream's buffer makes the first change the decoded block and the second fail."""
+    from . import env
+
+    try:
+        mv = st_.getbuffer()
+        mv[:] = b"\xee" * len(mv)
+        del mv
+    except Exception:  # noqa
+        pass
+    try:
+        st_.close()
+    except BufferError as e:
+        raise env.LibraryFault("stream-still-referenced", f"the BytesIO a block was decoded from cannot be closed afterwards: {e} (the decoded block keeps views into the stream's buffer)")
 
 
 def invalid_variant(spec):
